@@ -215,21 +215,33 @@ DecodedFixed(f, d) == /\ Quant(f, Decode(f, d)) = Decode(f, d)
 \* One entry per mipmap level (entry m + 1 is level m): where its pixels come from - the file
 \* ("file") or, once clear_mipmaps() erased it, the level above ("cleared") - and whether the
 \* lazily read frame has been loaded into memory, which must not be observable.
-LvInit(mips) == [j \in 1..mips |-> [st |-> "file", loaded |-> FALSE]]
+NoTerm == [base |-> 0, avgs |-> 0, ed |-> FALSE]
+LvInit(mips) == [j \in 1..mips |-> [st |-> "file", loaded |-> FALSE, ed |-> FALSE, t |-> NoTerm]]
 Sel(sel, m) == CASE sel = "top" -> m = 0 [] sel = "small" -> m >= 1 [] OTHER -> TRUE
-\* loading or looking at a frame that was cleared is not a documented way to keep or regenerate it
+\* loading or looking at a frame that is erased is not a documented way to keep or regenerate it
 CanLoad(lv, sel) == \A j \in 1..Len(lv) : Sel(sel, j - 1) => lv[j].st # "cleared"
 HLoad(lv, sel) == [j \in 1..Len(lv) |-> IF Sel(sel, j - 1) THEN [lv[j] EXCEPT !.loaded = TRUE] ELSE lv[j]]
 HAccess(lv, m) == [lv EXCEPT ![m + 1].loaded = TRUE]
+\* writing a pixel of a frame (Frame[x, y] = p): the level now differs from its source in that pixel
+HPoke(lv, m) == [lv EXCEPT ![m + 1].loaded = TRUE, ![m + 1].ed = TRUE, ![m + 1].t.ed = TRUE]
 \* clear_mipmaps(after): every level smaller than level `after` is erased
-HClear(lv, after) == [j \in 1..Len(lv) |-> IF j - 1 > after THEN [st |-> "cleared", loaded |-> FALSE] ELSE lv[j]]
-\* compute_mipmaps() regenerates erased levels from the level above; nothing else changes, and
-\* save() does the same, so for the content of the next file it is the identity
-HCompute(lv) == lv
-\* the content of level m in the next saved file: the stored level `base`, averaged `avgs` times
+HClear(lv, after) == [j \in 1..Len(lv) |-> IF j - 1 > after THEN [st |-> "cleared", loaded |-> FALSE, ed |-> FALSE, t |-> NoTerm]
+                                             ELSE lv[j]]
+\* the content of level m: the stored level `base` (with the pixels written since, if ed), averaged
+\* `avgs` times; an erased level is the average of the level above, a regenerated one ("gen") what
+\* that average was when compute_mipmaps() ran
 RECURSIVE Term(_, _)
-Term(lv, m) == IF lv[m + 1].st = "file" THEN [base |-> m, avgs |-> 0]
-               ELSE LET p == Term(lv, m - 1) IN [base |-> p.base, avgs |-> p.avgs + 1]
+Term(lv, m) == CASE lv[m + 1].st = "file" -> [base |-> m, avgs |-> 0, ed |-> lv[m + 1].ed]
+                 [] lv[m + 1].st = "gen" -> lv[m + 1].t
+                 [] OTHER -> LET p == Term(lv, m - 1) IN [base |-> p.base, avgs |-> p.avgs + 1, ed |-> p.ed]
+\* compute_mipmaps(): erased levels are regenerated now, largest first, from the level above as it is now
+RECURSIVE HComputeFrom(_, _)
+HComputeFrom(lv, j) ==
+    IF j > Len(lv) THEN lv
+    ELSE HComputeFrom(IF lv[j].st = "cleared"
+                      THEN [lv EXCEPT ![j] = [st |-> "gen", loaded |-> TRUE, ed |-> FALSE, t |-> Term(lv, j - 1)]]
+                      ELSE lv, j + 1)
+HCompute(lv) == HComputeFrom(lv, 1)
 \* the 16-bit-per-channel formats are not decoded: only their metadata is read
 HeaderOnly(f) == f \in {"RGBA16161616", "RGBA16161616F"}
 =============================================================================
